@@ -29,6 +29,16 @@ def outW (o : Outcome) (show_ : Bool) : String :=
   | .ok [] _ => "ok"
   | .fail _ => "fail"
 
+/-- driver state: the persisted model state and the block that sits between its two phases, if any -/
+structure DS where
+  p : Persist
+  pending : Option ExecResult
+
+def flush (s : DS) : DS × String :=
+  match s.pending with
+  | none => (s, "-")
+  | some r => (⟨submitBlock s.p r, none⟩, outW r.outcome false)
+
 def doOp (p : Persist) (op : String) : Option (String × Persist) :=
   match op.splitOn ":" with
   | ["pre.put", k, v] => match k.toNat?, v.toNat? with
@@ -57,17 +67,32 @@ def doOp (p : Persist) (op : String) : Option (String × Persist) :=
   | ["pre.bad"] => let (o, p') := preExec p ⟨.invoke, .fail 9, true⟩; some (outW o false, p')
   | _ => none
 
+/-- `exe.*` executes a block and keeps the result pending; `sub`, any `blk.*`, another `exe.*` and the end of the line submit it;
+everything else (pre-executions, persisted reads) runs on the store as it is while the block is pending -/
+def doOpS (s : DS) (op : String) : Option (String × DS) :=
+  match op.splitOn ":" with
+  | ["exe.put", k, v] => match k.toNat?, v.toNat? with
+    | some k, some v => let (s, _) := flush s; some ("exe", { s with pending := some (executeBlock s.p (putGet k v) 0) })
+    | _, _ => none
+  | ["exe.ont", a] => a.toNat?.map fun a => let (s, _) := flush s; ("exe", { s with pending := some (executeBlock s.p (transfer a) 0) })
+  | ["sub"] => let (s, o) := flush s; some (o, s)
+  | _ =>
+    let s := if op.startsWith "blk." then (flush s).1 else s
+    (doOp s.p op).map fun (o, p') => (o, { s with p := p' })
+
 def handle (line : String) : String :=
   match fields line with
   | ["P", ops] =>
-    let rec go (p : Persist) (ops : List String) (acc : List String) : String :=
+    let rec go (s : DS) (ops : List String) (acc : List String) : String :=
       match ops with
-      | [] => String.intercalate " | " (acc.reverse ++ [s!"h=+{p.height} b={(p.kv BOOK).getD 0},{(p.kv RCPT).getD 0}"])
+      | [] =>
+        let p := (flush s).1.p
+        String.intercalate " | " (acc.reverse ++ [s!"h=+{p.height} b={(p.kv BOOK).getD 0},{(p.kv RCPT).getD 0}"])
       | op :: r =>
-        match doOp p op with
+        match doOpS s op with
         | none => "bad-op"
-        | some (o, p') => go p' r (o :: acc)
-    go p0 (ops.splitOn ";") []
+        | some (o, s') => go s' r (o :: acc)
+    go ⟨p0, none⟩ (ops.splitOn ";") []
   | _ => "bad-op"
 
 end OntVerif.Driver.C42
